@@ -1708,6 +1708,123 @@ func genHazardDoc(r *rand.Rand, forced int) ([]byte, string) {
 	return b.bytes(cat), h.id
 }
 
+// ---- /Contents arrays with tiny elements
+
+// genContentsArrayDoc: pages whose /Contents is an array (or a single reference) of small
+// streams -- decoded length 0, 1, 2 and more: q, Q, newline, space, empty, hex-encoded --
+// shared between pages and not.
+func genContentsArrayDoc(r *rand.Rand) []byte {
+	b := &pdfb{}
+	cat := b.add("")
+	root := b.add("")
+	font := b.add("<< /Type /Font /Subtype /Type1 /BaseFont /Helvetica /Encoding /WinAnsiEncoding >>")
+	pieces := []string{"q", "Q", "\n", " ", "", "q\n", "Q\n", "  ", "1 0 0 1 5 5 cm\n", "BT /F1 12 Tf (a) Tj ET\n", "0 0 5 5 re f\n"}
+	mk := func(p string) int {
+		if r.Intn(4) == 0 {
+			return b.stream("/Filter /ASCIIHexDecode", []byte(hex.EncodeToString([]byte(p))+">"))
+		}
+		return b.stream("", []byte(p))
+	}
+	var shared []int
+	for i := 0; i < 5; i++ {
+		shared = append(shared, mk(pieces[r.Intn(5)])) // the tiny ones
+	}
+	var kids []string
+	for p, n := 0, 2+r.Intn(2); p < n; p++ {
+		var refs []string
+		for i, m := 0, 1+r.Intn(6); i < m; i++ {
+			var o int
+			switch r.Intn(3) {
+			case 0:
+				o = shared[r.Intn(len(shared))]
+			default:
+				o = mk(pieces[r.Intn(len(pieces))])
+			}
+			refs = append(refs, fmt.Sprintf("%d 0 R", o))
+		}
+		// a typical wrapper: q ... Q as one-byte streams around the real content
+		if r.Intn(2) == 0 {
+			refs = append([]string{fmt.Sprintf("%d 0 R", mk("q")), fmt.Sprintf("%d 0 R", mk("1 0 0 1 5 5 cm\n"))}, refs...)
+			refs = append(refs, fmt.Sprintf("%d 0 R", mk("Q")))
+		}
+		contents := "[" + strings.Join(refs, " ") + "]"
+		if len(refs) == 1 && r.Intn(2) == 0 {
+			contents = refs[0]
+		}
+		if r.Intn(6) == 0 {
+			contents = fmt.Sprintf("%d 0 R", b.add(contents)) // the array itself indirect
+		}
+		kids = append(kids, fmt.Sprintf("%d 0 R", b.add(fmt.Sprintf("<< /Type /Page /Parent %d 0 R /Resources << /Font << /F1 %d 0 R >> >> /Contents %s >>", root, font, contents))))
+	}
+	b.set(root, fmt.Sprintf("<< /Type /Pages /Count %d /Kids [%s] /MediaBox [0 0 612 792] >>", len(kids), strings.Join(kids, " ")))
+	b.set(cat, fmt.Sprintf("<< /Type /Catalog /Pages %d 0 R >>", root))
+	return b.bytes(cat)
+}
+
+// contentLens: decoded lengths of the elements of every page's /Contents array ("-" when it
+// is not an array)
+func contentLens(ctx *model.Context) []string {
+	var out []string
+	for p := 1; p <= ctx.PageCount; p++ {
+		d, _, _, err := ctx.PageDict(p, false)
+		if err != nil {
+			out = append(out, "?")
+			continue
+		}
+		o, _ := ctx.Dereference(d["Contents"])
+		a, ok := o.(types.Array)
+		if !ok {
+			out = append(out, "-")
+			continue
+		}
+		var l []string
+		for _, e := range a {
+			sd, _, err := ctx.DereferenceStreamDict(e)
+			if err != nil || sd == nil {
+				l = append(l, "?")
+				continue
+			}
+			if err := sd.Decode(); err != nil {
+				l = append(l, "?")
+				continue
+			}
+			l = append(l, strconv.Itoa(len(sd.Content)))
+		}
+		out = append(out, strings.Join(l, ","))
+	}
+	return out
+}
+
+// removeEmptyK: per page, the decoded lengths of the /Contents array after Optimize with
+// OptimizeDuplicateContentStreams against the model's removeEmpty on the lengths before.
+func removeEmptyK(r *vh.Run, doc []byte) {
+	defer func() { recover() }()
+	before, err := readCtx(doc)
+	if err != nil {
+		return
+	}
+	lb := contentLens(before)
+	out, err := optimizeBytes(doc, true)
+	if err != nil {
+		return
+	}
+	after, err := readCtx(out)
+	if err != nil {
+		return
+	}
+	la := contentLens(after)
+	for i := range lb {
+		if lb[i] == "-" || strings.Contains(lb[i], "?") || i >= len(la) {
+			continue
+		}
+		impl := la[i]
+		if impl == "-" {
+			impl = "" // an array that lost every element
+		}
+		r.Case("RemoveEmpty", []string{lb[i]}, impl)
+	}
+}
+
 // ---- duplicates with normalisable extras
 
 // genExtrasDoc: k copies of one form XObject / image / soft-mask group form (same dict, same
@@ -2147,6 +2264,9 @@ func readCtx(b []byte) (*model.Context, error) {
 	return api.ReadAndValidate(bytes.NewReader(b), conf)
 }
 
+// non-default optimisation switches of model.Configuration, chosen per document by docOracle
+var optNoResourceDicts, optNoBeforeWriting bool
+
 func optimizeBytes(b []byte, dupContent bool) (out []byte, err error) {
 	defer func() {
 		if e := recover(); e != nil {
@@ -2155,6 +2275,8 @@ func optimizeBytes(b []byte, dupContent bool) (out []byte, err error) {
 	}()
 	conf := model.NewDefaultConfiguration()
 	conf.OptimizeDuplicateContentStreams = dupContent
+	conf.OptimizeResourceDicts = !optNoResourceDicts
+	conf.OptimizeBeforeWriting = !optNoBeforeWriting
 	var w bytes.Buffer
 	if err := api.Optimize(bytes.NewReader(b), &w, conf); err != nil {
 		return nil, err
@@ -2163,7 +2285,13 @@ func optimizeBytes(b []byte, dupContent bool) (out []byte, err error) {
 }
 
 func docOracle(r *vh.Run, doc []byte, dupContent bool, kind string) {
-	input := map[string]any{"pdf": hex.EncodeToString(doc), "optimizeDuplicateContentStreams": dupContent}
+	// the whole document matrix also runs under the non-default switches
+	optNoResourceDicts = r.Rand.Intn(4) == 0
+	optNoBeforeWriting = r.Rand.Intn(5) == 0
+	defer func() { optNoResourceDicts, optNoBeforeWriting = false, false }()
+	input := map[string]any{"pdf": hex.EncodeToString(doc), "optimizeDuplicateContentStreams": dupContent,
+		"optimizeResourceDicts": !optNoResourceDicts, "optimizeBeforeWriting": !optNoBeforeWriting}
+	r.Count(fmt.Sprintf("conf:dup=%v,resdicts=%v,beforewriting=%v", dupContent, !optNoResourceDicts, !optNoBeforeWriting))
 	before, err := readCtx(doc)
 	if err != nil {
 		r.Count("doc:" + kind + ":invalid-input")
@@ -2215,6 +2343,9 @@ func docOracle(r *vh.Run, doc []byte, dupContent bool, kind string) {
 			}
 			if contentOf(fpA[i]) != contentOf(fpB[i]) {
 				class = "optimize-page-content"
+				if kind == "contents-array" {
+					class = "contents-array-element-dropped"
+				}
 				if kind == "rawtwin" {
 					class = "content-dedup-same-raw-different-filter"
 				}
@@ -2353,9 +2484,14 @@ func main() {
 		formDedupK(r, doc)
 	}
 	scannerK(r)
+	for i, n := 0, r.Pick(250, 5000); i < n; i++ {
+		doc := genContentsArrayDoc(r.Rand)
+		docOracle(r, doc, r.Rand.Intn(3) != 0, "contents-array")
+		removeEmptyK(r, doc)
+	}
 	for i, n := 0, r.Pick(3*len(hazards), 40*len(hazards)); i < n; i++ {
 		doc, id := genHazardDoc(r.Rand, i)
-		docOracle(r, doc, false, "hazard:"+id)
+		docOracle(r, doc, r.Rand.Intn(3) == 0, "hazard:"+id)
 	}
 	mixedCycleDocOracle(r)
 	for i := 0; i < 2; i++ {
